@@ -52,3 +52,19 @@ Definition d_rich : osm :=
                        r_meta := {| mt_ts := None; mt_version := 3; mt_changeset := 0; mt_user := "alice"; mt_uid := 0 |} |};
                     {| r_id := 2; r_members := [mw 10 "outer"; mw 13 "inner"];
                        r_tags := [("type", "multipolygon"); ("landuse", "forest")]; r_meta := meta0 |} ] |}.
+
+(* the scene of Properties/C16.v (ex8): a square cut into two outer ways (one annotated with
+   coordinates and orientation), a triangular hole, a node member and a way with another role *)
+Definition d_ex8 : osm :=
+  {| nodes := [nd 1 1 1; nd 2 9 1; nd 3 9 9; nd 4 1 9; nd 5 3 3; nd 6 3 5; nd 7 5 5];
+     ways := [ {| w_id := 11; w_nodes := [ {| wn_id := 3; wn_lon := 9; wn_lat := 9 |};
+                                           {| wn_id := 2; wn_lon := 9; wn_lat := 1 |};
+                                           {| wn_id := 1; wn_lon := 1; wn_lat := 1 |} ];
+                  w_tags := []; w_meta := meta1 |};
+               wy 12 [] false [3; 4; 1]; wy 13 [] false [5; 6; 7; 5]; wy 14 [] false [1; 5] ];
+     relations := [ {| r_id := 1;
+                       r_members := [ {| m_type := TWay; m_ref := 13; m_role := "inner"; m_orient := -1; m_nodes := [] |};
+                                      mn 1 "outer"; mw 12 "outer"; mw 14 "label";
+                                      {| m_type := TWay; m_ref := 11; m_role := "outer"; m_orient := -1; m_nodes := [] |} ];
+                       r_tags := [("type", "multipolygon"); ("natural", "water")]; r_meta := meta0 |} ] |}.
+Definition r_ex8 : relation := hd {| r_id := 0; r_members := []; r_tags := []; r_meta := meta0 |} (relations d_ex8).
